@@ -2236,6 +2236,20 @@ impl ArrayDataBuilder {
             skip_validation,
         } = self;
 
+        // `BooleanBuffer::new` panics on a buffer that is too short: as in `ArrayData::try_new`,
+        // check the length of `null_bit_buffer` before it is used to compute the null count
+        if let (None, Some(null_bit_buffer)) = (nulls.as_ref(), null_bit_buffer.as_ref()) {
+            let len_plus_offset = checked_len_plus_offset(&data_type, len, offset)?;
+            let needed_len = bit_util::ceil(len_plus_offset, 8);
+            if null_bit_buffer.len() < needed_len {
+                return Err(ArrowError::InvalidArgumentError(format!(
+                    "null_bit_buffer size too small. got {} needed {}",
+                    null_bit_buffer.len(),
+                    needed_len
+                )));
+            }
+        }
+
         let nulls = nulls
             .or_else(|| {
                 let buffer = null_bit_buffer?;
